@@ -110,6 +110,22 @@ async fn probe<TC: akd::configuration::Configuration>(
             }
             Err(_) => p.results.push(format!("H {} none", hex_or_dash(&u.0))),
         }
+        // limited histories: records of an unfinished or failed epoch must not use up slots of the window
+        for n in [1usize, 2] {
+            let hp = HistoryParams::MostRecent(n);
+            match dir.key_history(u, hp).await {
+                Ok((proof, eh2)) => {
+                    match akd::verify::key_history_verify::<TC>(pk.as_bytes(), root, ep, u.clone(), proof, HistoryVerificationParams::Default { history_params: hp }) {
+                        Ok(rs) if eh2.0 == ep && eh2.1 == root => p.results.push(format!("H{n} {} {}", hex_or_dash(&u.0), rs.iter().map(|r| format!("({},{},{})", r.epoch, r.version, hex_or_dash(&r.value.0))).collect::<Vec<_>>().join(" "))),
+                        _ => {
+                            p.histories_ok = false;
+                            p.detail = format!("history (most recent {n}) of {} does not verify against ({ep},{})", hex_or_dash(&u.0), hex::encode(root));
+                        }
+                    }
+                }
+                Err(_) => p.results.push(format!("H{n} {} none", hex_or_dash(&u.0))),
+            }
+        }
     }
     if ep >= 1 && roots.len() as u64 == ep + 1 {
         match dir.audit(0, ep).await {
